@@ -2,7 +2,7 @@ ENGINES = [
     {'name': 'kani', 'path': '/verif/kani', 'serves_properties': ['C02', 'C05'],
      'kind_free_text': 'Kani 0.68 / CBMC harness crate with a path dependency on /repo: proof harnesses over the scalar kernels (LineRange::{contains, overlaps, shift}, LineAttribution / Attribution intersection), run by the same ./check as a second opinion for the MIR engine'},
     {'name': 'mirsym', 'path': '/verif/mirsym',
-     'serves_properties': ['C01', 'C02', 'C03', 'C04', 'C05', 'C06', 'C07', 'C08', 'C09', 'C14', 'C12', 'C16', 'C17', 'C18', 'C19'],
+     'serves_properties': ['C01', 'C02', 'C03', 'C04', 'C05', 'C06', 'C07', 'C08', 'C09', 'C14', 'C15', 'C12', 'C16', 'C17', 'C18', 'C19'],
      'kind_free_text': 'symbolic executor over the MIR that rustc emits for /repo\'s working tree (regenerated per tree state); std modelled at the call boundary; z3 QF_BV decides every branch and every obligation; counterexamples replayed natively through /verif/replay'},
 ]
 NOTES = 'Every check: exit 0 = held for all inputs inside the stated bounds (KNOWN-FINDING lines allowed); exit 1 = natively reproducing violation; exit 2 = inconclusive (unsupported construct, solver unknown, model/native mismatch, vacuous harness) and is never reported as a pass.'
@@ -98,10 +98,14 @@ CHECKS['C14'] = {
     'note': 'splitting an edit into several checkpoints and checkpoint::run as a whole are outside',
     'technique': 'MIR symbolic execution + z3 over a model file system, native replay on a scratch repository',
 }
+CHECKS['C15'] = {
+    'text': 'Kernel claim. Bounded symbolic execution of the real precondition comparator (tracked_paths_match_for_commit_pairs) and of both shortcut entry points (try_fast_path_rebase_note_remap, try_fast_path_cherry_pick_note_remap) against a model of `git diff-tree --stdin --raw -z -r -- <paths>` over model trees: for every number of pairs inside the bounds and every combination of per-pair agreement / difference on each tracked path (first, middle, last pair alike), unknown commits, empty tree ids, missing or unreadable notes, subset of commits to process, unequal list lengths and empty tracked paths, the comparator says "identical" only when every pair agrees on every tracked path, the shortcut is taken only then and only when every original has a note, what it writes is exactly one note per rewritten commit to process — the original\'s note with the base set to the rewritten commit — and declining writes nothing. That the rewritten text of the note parses to the same note with the base updated is decided under C17 (obligation R4).',
+    'design_ref': 'DESIGN.md §4 C15',
+    'note': 'equivalence with the content-replay algorithm on real histories is outside (the slow path drives blame and diff through git); soundness direction only: a comparator that declines more often keeps the property; reachability witnesses make sure the "identical" / "shortcut taken" answers are reached',
+    'technique': 'MIR symbolic execution + z3 against a model of git diff-tree, native replay on real commits',
+}
 _PENDING = 'check not built yet in this round (under construction; see DESIGN.md §4)'
 NOT_APPLICABLE = {
-      
-        'C15': _PENDING,
     'C20': _PENDING,
     'C10': 'convergence of notes across clones is decided by git\'s notes-merge / ref-transaction semantics over several repositories; git-ai\'s part is a fixed sequence of subprocess calls with no branch the solver could decide (DESIGN.md §7)',
     'C11': 'interleavings of processes over a file system and git ref locks; neither Kani nor the MIR executor models OS-level concurrency (DESIGN.md §7)',
